@@ -54,7 +54,10 @@ func FlushInterval(interval time.Duration) LoggerOption {
 }
 
 func NewLogger(w io.Writer, label string, opts ...LoggerOption) (Logger, error) {
-	zapl, err := zap.NewProduction()
+	// every error is a record of its own: no sampling of repeated messages
+	cfg := zap.NewProductionConfig()
+	cfg.Sampling = nil
+	zapl, err := cfg.Build()
 	if err != nil {
 		return nil, err
 	}
